@@ -126,7 +126,7 @@ impl CliOptions {
         let out = run_simcli(&w.bytes, &case.route, &case.opts, &case.env, &[]);
         proc_metrics(m, &out);
         h.u64(out.status.unwrap_or(-1) as u64);
-        h.u64(hash_bytes(&out.stdout));
+        h.u64(hash_output(&out.stdout));
         if out.status != Some(0) {
             let msg: String = out.stderr.lines().filter(|l| !l.contains("serializing schedule") && !l.contains("test panicked")).take(3).collect::<Vec<_>>().join(" ");
             return Err(viol("cli-nonzero-exit", "", format!("exit status {:?}: {msg}", out.status)));
